@@ -367,6 +367,60 @@ inline std::string mutate(vh::Rng &r, const std::vector<Truth> &reqs, std::strin
     return s;
 }
 
+//! decimal text of 2^64 - k (k = 0 gives the 20-digit number that no longer fits)
+inline std::string two64_minus(uint64_t k) {
+    if (k == 0) return "18446744073709551616";
+    return std::to_string((uint64_t)0 - k);
+}
+
+//! A stream whose last-but-tail request declares a body length at a boundary of the size type: 2^64 - k for k in 0..H+8 (H = length
+//! of that request's start line + headers, the offset at which the body starts inside the receive buffer; k = H is asked for in one
+//! case out of three), SIZE_MAX, SIZE_MAX - 1, 2^63 +- 1, 2^32 +- 1, 2^31 +- 1. Syntactically these are valid decimal lengths; the body
+//! can never arrive, so a parser has to wait (or refuse) - whatever follows the headers. `cls` names the value class for counters.
+inline std::string boundary_length_stream(vh::Rng &r, int first_ordinal, std::string *what, std::string *cls, bool *body_follows) {
+    GenOpts o; o.max_body = 30;
+    std::string bytes;
+    int lead = r.chance(1, 3) ? 1 : 0;
+    for (int i = 0; i < lead; ++i) bytes += gen_request(r, first_ordinal + i, o, 0).wire;
+    Truth t = gen_request(r, first_ordinal + lead, o, r.chance(1, 6) ? 1 : 0);
+    std::string head = t.wire.substr(0, t.head_end);
+    // the header block length once the 20-digit value is in place
+    auto with_value = [&](const std::string &v) { std::string h = head; h.replace(t.cl_value_off, t.cl_value_len, v); return h; };
+    size_t H20 = head.size() - t.cl_value_len + 20;
+    std::string v;
+    unsigned q = (unsigned)r.below(13);
+    if (q == 12) { v = two64_minus(0); *cls = "2p64_exact"; }      // one more than the type holds: has to be refused
+    else if (q < 4) { v = two64_minus(H20); *cls = "2p64_minus_header_length"; }
+    else if (q < 7) { uint64_t k = (uint64_t)r.range(0, (int64_t)H20 + 8); v = two64_minus(k); *cls = (k == H20) ? "2p64_minus_header_length" : (k == 0 ? "2p64_exact" : "2p64_window"); }
+    else if (q == 7) { uint64_t k = t.head_end - t.line_end - 2 + 20 - t.cl_value_len; v = two64_minus(k); *cls = "2p64_window"; }   // header lines only (start line consumed earlier)
+    else if (q == 8) { v = r.chance(1, 2) ? "18446744073709551615" : "18446744073709551614"; *cls = "size_max"; }
+    else if (q == 9) { static const char *b[] = {"9223372036854775807", "9223372036854775808", "9223372036854775809"}; v = r.pick(b); *cls = "2p63_boundary"; }
+    else if (q == 10) { static const char *b[] = {"4294967295", "4294967296", "4294967297"}; v = r.pick(b); *cls = "2p32_boundary"; }
+    else { static const char *b[] = {"2147483647", "2147483648", "2147483649"}; v = r.pick(b); *cls = "2p31_boundary"; }
+    bytes += with_value(v);
+    unsigned tail = (unsigned)r.below(4);
+    *body_follows = tail != 0;
+    if (tail == 1) bytes += t.body.empty() ? std::string("x") : t.body;
+    else if (tail == 2) bytes += r.bytes((size_t)r.range(1, 300));
+    else if (tail == 3) bytes += gen_request(r, first_ordinal + lead + 1, o, 0).wire;
+    *what += "boundary-content-length=" + v + (*body_follows ? "+tail;" : ";");
+    return bytes;
+}
+
+//! A request that carries a plain decimal Content-Length must have been handed out with exactly that many body bytes:
+//! returns false (and the two numbers as text) when it was not. Anything that is not 1..20 digits is left alone.
+inline bool declared_length_honoured(const tbox::http::Request &req, std::string *declared) {
+    auto it = req.headers.find("Content-Length");
+    if (it == req.headers.end()) return true;
+    const std::string &v = it->second;
+    if (v.empty() || v.size() > 20) return true;
+    for (char c : v) if (c < '0' || c > '9') return true;
+    size_t i = 0;
+    while (i + 1 < v.size() && v[i] == '0') ++i;
+    *declared = v.substr(i);
+    return *declared == std::to_string(req.body.size());
+}
+
 //! bytes that are not derived from a valid request at all
 inline std::string garbage(vh::Rng &r, std::string *what) {
     std::string s;
